@@ -190,7 +190,7 @@ def enter (P : Prog) (ee : EE) : Nat → Stmt → Env → St → Run × St
         (.wait id nF, s.emit (.late nS))
   | f+1, .call c, env, s => enterCall P ee f c env env.inLoop env.binds s
   | f+1, .par cs _, env, s =>
-      let (rs, s) := enterCalls P ee f cs env env.inLoop (fun _ => env.binds) 0 s.pend.length [] s
+      let (rs, s) := enterCalls P ee f cs env env.inLoop (fun _ => env.binds) 0 s.pend.length true s
       if rs.all Run.isFin then (.fin, s) else (.par rs, s)
   | f+1, .cond e passed failed _, env, s =>
       let (v, s) := s.evalExpr ee e env.ctx
@@ -212,7 +212,7 @@ def enter (P : Prog) (ee : EE) : Nat → Stmt → Env → St → Run × St
         else
           let cnt := n.num.toNat
           let (rs, s) := enterCalls P ee f (List.replicate cnt c) env false
-                            (fun k => (var, k) :: env.binds) 0 s.pend.length [] s
+                            (fun k => (var, k) :: env.binds) 0 s.pend.length true s
           if rs.all Run.isFin then (.fin, s) else (.par rs, s)
 
 /-- enter a block: run statements in order until one does not finish within this call -/
@@ -241,18 +241,19 @@ def enterCall (P : Prog) (ee : EE) : Nat → CallSite → Env → Bool → List 
         | (r, s) => (.call nF r, s)
 
 /-- the branches of a fork, in order; `h` = height of the nested-call stack when the fork was reached;
-    `acc` = runs of the branches entered so far (reversed) -/
+    `allFin` = all branches entered so far have already finished -/
 def enterCalls (P : Prog) (ee : EE) : Nat → List CallSite → Env → Bool → (Nat → List (String × Nat)) →
-    Nat → Nat → List Run → St → List Run × St
-  | 0, _, _, _, _, _, _, acc, s => (acc.reverse ++ [.stuck .outOfFuel], s.setStuck .outOfFuel)
-  | _+1, [], _, _, _, _, _, acc, s => (acc.reverse, s)
-  | f+1, c :: cs, env, inLoop, bindsOf, k, h, acc, s =>
+    Nat → Nat → Bool → St → List Run × St
+  | 0, _, _, _, _, _, _, _, s => ([.stuck .outOfFuel], s.setStuck .outOfFuel)
+  | _+1, [], _, _, _, _, _, _, s => ([], s)
+  | f+1, c :: cs, env, inLoop, bindsOf, k, h, allFin, s =>
       let (r, s) := enterCall P ee f c env inLoop (bindsOf k) s
-      let acc := r :: acc
+      let allFin := allFin && r.isFin
       -- the nested calls opened while entering this branch return before the next branch's callbacks
       -- run – unless this was the last branch and the join fires inside them
-      let s := if cs.isEmpty && acc.all Run.isFin then s else s.flush h
-      enterCalls P ee f cs env inLoop bindsOf (k + 1) h acc s
+      let s := if cs.isEmpty && allFin then s else s.flush h
+      let (rs, s) := enterCalls P ee f cs env inLoop bindsOf (k + 1) h allFin s
+      (r :: rs, s)
 
 /-- counting loop: `on_counting_loop_started` with counter value `c` -/
 def iterC (P : Prog) (ee : EE) : Nat → Nat → String → Limit → List Stmt → Env → St → Run × St
@@ -284,38 +285,47 @@ def iterW (P : Prog) (ee : EE) : Nat → Expr → List Stmt → Env → St → R
 end
 
 mutual
-/-- deliver the completion of service `i` (a token on its "finished" place) -/
-def deliver (P : Prog) (ee : EE) (f : Nat) (i : Nat) : Run → St → Run × St
+/-- deliver the completion of service `i` (a token on its "finished" place): the first waiting leaf
+    with that id finishes and everything it enables runs.  `none`: no such leaf (nothing happens). -/
+def deliver (P : Prog) (ee : EE) (f : Nat) (i : Nat) : Run → St → Option (Run × St)
   | .wait j n, s =>
-      if i = j then (.fin, { s with awaited := s.awaited.erase i }.emit (.note n))
-      else (.wait j n, s)
+      if i = j then some (.fin, { s with awaited := s.awaited.erase i }.emit (.note n))
+      else none
   | .blk r rest env, s =>
       match deliver P ee f i r s with
-      | (.fin, s) => enterBlk P ee f rest env s
-      | (r', s) => (.blk r' rest env, s)
+      | none => none
+      | some (.fin, s) => some (enterBlk P ee f rest env s)
+      | some (r', s) => some (.blk r' rest env, s)
   | .call n r, s =>
       match deliver P ee f i r s with
-      | (.fin, s) => (.fin, s.emit (.note n))
-      | (r', s) => (.call n r', s)
+      | none => none
+      | some (.fin, s) => some (.fin, s.emit (.note n))
+      | some (r', s) => some (.call n r', s)
   | .par rs, s =>
-      let (rs', s) := deliverL P ee f i rs s
-      if rs'.all Run.isFin then (.fin, s) else (.par rs', s)
+      match deliverL P ee f i rs s with
+      | none => none
+      | some (rs', s) => if rs'.all Run.isFin then some (.fin, s) else some (.par rs', s)
   | .cloop c var lim body env r, s =>
       match deliver P ee f i r s with
-      | (.fin, s) => iterC P ee f (c + 1) var lim body env s
-      | (r', s) => (.cloop c var lim body env r', s)
+      | none => none
+      | some (.fin, s) => some (iterC P ee f (c + 1) var lim body env s)
+      | some (r', s) => some (.cloop c var lim body env r', s)
   | .wloop e body env r, s =>
       match deliver P ee f i r s with
-      | (.fin, s) => iterW P ee f e body env s
-      | (r', s) => (.wloop e body env r', s)
-  | .fin, s => (.fin, s)
-  | .stuck w, s => (.stuck w, s)
-def deliverL (P : Prog) (ee : EE) (f : Nat) (i : Nat) : List Run → St → List Run × St
-  | [], s => ([], s)
+      | none => none
+      | some (.fin, s) => some (iterW P ee f e body env s)
+      | some (r', s) => some (.wloop e body env r', s)
+  | .fin, _ => none
+  | .stuck _, _ => none
+def deliverL (P : Prog) (ee : EE) (f : Nat) (i : Nat) : List Run → St → Option (List Run × St)
+  | [], _ => none
   | r :: rs, s =>
-      let (r', s) := deliver P ee f i r s
-      let (rs', s) := deliverL P ee f i rs s
-      (r' :: rs', s)
+      match deliver P ee f i r s with
+      | some (r', s) => some (r' :: rs, s)
+      | none =>
+        match deliverL P ee f i rs s with
+        | some (rs', s) => some (r :: rs', s)
+        | none => none
 end
 
 mutual
